@@ -1,0 +1,48 @@
+// eventpp library
+// Verification hooks. Everything in this file expands to nothing unless
+// EVENTPP_VERIF is defined. With EVENTPP_VERIF defined the program must
+// provide the three extern "C" functions declared below and may define
+// struct eventpp_verif::Access to inspect the containers.
+
+#ifndef VERIFHOOKS_I_H_902113857731
+#define VERIFHOOKS_I_H_902113857731
+
+#ifdef EVENTPP_VERIF
+
+namespace eventpp_verif {
+struct Access;
+} //namespace eventpp_verif
+
+extern "C" void eventpp_verif_point(const char * tag);
+extern "C" void eventpp_verif_racy_read_begin(void);
+extern "C" void eventpp_verif_racy_read_end(void);
+
+namespace eventpp_verif {
+struct RacyReadScope
+{
+	RacyReadScope() { ::eventpp_verif_racy_read_begin(); }
+	~RacyReadScope() { ::eventpp_verif_racy_read_end(); }
+};
+} //namespace eventpp_verif
+
+// Grants the verification harness access to private members.
+#define EVENTPP_VERIF_FRIEND friend struct ::eventpp_verif::Access;
+// A point where a scheduler may preempt; tag names the site.
+#define EVENTPP_VERIF_POINT(tag) ::eventpp_verif_point(tag)
+// Brackets a read that the library performs without the lock on purpose.
+// END is idempotent: it may be reached more than once after one BEGIN.
+#define EVENTPP_VERIF_RACY_READ_BEGIN() ::eventpp_verif_racy_read_begin()
+#define EVENTPP_VERIF_RACY_READ_END() ::eventpp_verif_racy_read_end()
+#define EVENTPP_VERIF_RACY_READ_SCOPE() ::eventpp_verif::RacyReadScope eventppVerifRacyReadScope_
+
+#else
+
+#define EVENTPP_VERIF_FRIEND
+#define EVENTPP_VERIF_POINT(tag) ((void)0)
+#define EVENTPP_VERIF_RACY_READ_BEGIN() ((void)0)
+#define EVENTPP_VERIF_RACY_READ_END() ((void)0)
+#define EVENTPP_VERIF_RACY_READ_SCOPE() ((void)0)
+
+#endif
+
+#endif
